@@ -25,6 +25,13 @@ tie    : T-diff.  Literal blocks, 30 fixed blocks and random update blocks over 
          Independently of the model, the property is evaluated on the real observations: accepted & cast-free & shift amounts as wide as
          the shifted value => no ValueError;  checker width of a probed node == runtime nbits (ints: value fits).  Each failure is
          attributed to the extra check of Typing.v that would have rejected the block (key C10:S<k>:missing-check).
+         Section "constants": free-variable constants — closure ints / Bits / bitstruct instances, component-attribute constants, lists of
+         them with constant index (folded by the RTLIR generator: modelled as ELit / ESized) and with SIGNAL index (rt.Array of rt.Const),
+         their (nested) fields, lists of signals — combined with explicitly sized signals of equal and different widths in arithmetic,
+         bitwise, comparison, if-expression, concat, shift, assignment, temporaries.  Signal-indexed lists, their fields, closure Bits
+         variables and signal lists have NO Coq constructor: those blocks are counted as unmodelled, but they are still type-checked by
+         the real pass, simulated and probed, and the property is evaluated on those observations (key C10:unmodelled:<hash>, or the
+         S-family when the failing node is python-int arithmetic (S3) / a folded BinOp of sized constants (S2)).
 """
 from common import *
 from sched_common import load_source
@@ -273,6 +280,26 @@ def has_cast(e):
   if e[0] == 'cast': return True
   if e[0] == 'sized' and not (0 <= e[2] < (1 << e[1])): return True
   return any(has_cast(c) for c in children(e))
+
+CONST_KINDS = ('lit', 'cint', 'free', 'sized', 'cbits', 'fbits')
+def folded_binops(D, ss):
+  """source text (as printed in node descriptions) of every BinOp all of whose leaves are constants with at least one sized one"""
+  out = set()
+  def leaves(e):
+    cs = children(e)
+    return [e[0]] if not cs else [k for c in cs for k in leaves(c)]
+  def visit(e):
+    if e[0] == 'bin':
+      ls = leaves(e)
+      if all(k in CONST_KINDS for k in ls) and any(k in ('sized', 'cbits', 'fbits') for k in ls): out.add(expr_src(D, e)[:60])
+    for c in children(e): visit(c)
+  def stm(ss):
+    for s in ss:
+      if s[0] == 'assign': visit(s[3])
+      elif s[0] == 'if': visit(s[2]); stm(s[3]); stm(s[4])
+      else: stm(s[5])
+  stm(ss)
+  return out
 
 def block_has_cast(ss):
   for s in ss:
@@ -864,6 +891,8 @@ def check_cases(ctx, cases, section, lit_attr=None):
     if msg is None and not bad: continue
     # attribution without the Coq model: python-int arithmetic whose result does not fit the assigned width is family S3
     cause = 'S3' if bad and bad[0][0].startswith('bin:') and 'runtime int' in bad[0][1] else None
+    # a BinOp between two constants (each carries a _value) is folded and re-typed from the VALUE even when the operands are sized: family S2
+    if bad and bad[0][0].startswith('bin:') and 'runtime Bits' in bad[0][1] and bad[0][0][4:] in folded_binops(c.D, c.ss): cause = 'S2'
     key = f'C10:{cause}:missing-check' if cause else f'C10:unmodelled:{h}'
     what = (f'accepted block: sub-expression {bad[0][0]}: {bad[0][1]}' if bad else 'the RTLIR type checker ACCEPTS this block') + \
            (f'; simulating it raises {msg[:160]}' if msg else '') + (f' [cause {cause}]' if cause else '') + f' block:{c.body[-300:]}'
@@ -1207,14 +1236,14 @@ def run(ctx):
   quick = ctx.tier == 'quick'
   literal_cases(ctx, 70 if quick else 80)
   directed_cases(ctx)
-  constant_cases(ctx, 160 if quick else 1200, 4 if quick else 6)
-  random_cases(ctx, 400 if quick else 3000, 6 if quick else 8)
+  constant_cases(ctx, 160 if quick else 1000, 4 if quick else 6)
+  random_cases(ctx, 400 if quick else 2500, 6 if quick else 8)
 
 def main(ctx):
   ctx.trusted += ['harness/c10.py prints the same block as Python source and as a Coq term (cross-checked on every block: the number and order of RTLIR nodes of the real tree must match the term)',
                   'Bits/BitsSpec.v and Bits/Helpers.v as the meaning of Bits operators (proved equal to the generated model of PythonBits.py in C04/C05)']
   ctx.assumptions += [
-    'language modelled: signals of Bits / nested bitstruct type, int literals, BitsN(k), closure ints, + - * & | ^ << >>, comparisons, ~, slices (constant or x:x+k), bit index, concat, zext/sext/trunc (int width form), reduce_*, BitsN(e), IfExp, temporaries, constant-bounded for loops, @= / <<= (whole vector signals), if/else. Not modelled: / % ** unary -, signal lists / arrays, struct instantiation, struct<->vector assignment, interfaces, sub-components, Bits-valued free variables, negative literals.',
+    'language modelled: signals of Bits / nested bitstruct type, int literals, BitsN(k), closure ints, + - * & | ^ << >>, comparisons, ~, slices (constant or x:x+k), bit index, concat, zext/sext/trunc (int width form), reduce_*, BitsN(e), IfExp, temporaries, constant-bounded for loops, @= / <<= (whole vector signals), if/else. Not modelled in Coq: / % ** unary -, signal lists, signal-indexed constant lists and their fields, closure Bits variables, struct instantiation, struct<->vector assignment, interfaces, sub-components, negative literals; blocks of the constants section that use them are evaluated against the property on the real observations only (coverage.unmodelled_blocks_property_evaluated).',
     'generated blocks read only InPorts/temporaries and write only OutPorts/Wires (no aliasing between a temporary and a signal written later)',
     'tc_sound is proved for `tc strict` = the model of the code plus checks S1..S13 (Typing.v); tc_mono proves strict is a restriction of impl; for the code as it is the statement is false (machine-checked counterexamples; the harness finds them on the real code)',
     'soundness is proved for expressions, sub-expressions and single assignment statements under any well-typed environment; not for whole blocks with if/for (those are only compared with the real simulator)',
@@ -1227,6 +1256,6 @@ def main(ctx):
   except Exception as e:
     ctx.note('correspondence crashed: ' + traceback.format_exc()[-1500:])
     ctx.violation('C10:harness-crash', f'correspondence could not run: {e!r}', {'traceback': traceback.format_exc()}, found_input=False)
-  return ctx.finish(rule='(1) literals 2^k-1,2^k,2^k+1 (k<=70/80) as a Number node, as a loop bound and against a k-bit signal; (2) 30 fixed blocks, one per checker rule / missing check; '
+  return ctx.finish(rule='(1) literals 2^k-1,2^k,2^k+1 (k<=70/80) as a Number node, as a loop bound and against a k-bit signal; (2) 30 fixed blocks, one per checker rule / missing check; (2b) 160/1000 blocks over free-variable constants (ints, Bits, bitstructs, lists of them with constant and signal index, fields, signal lists) against signals of equal / different width; '
                          '(3) random type-directed update blocks (1-4 statements, depth<=3, 2-4 inputs and 2-4 outputs of Bits/bitstruct type, wildness 0-25%) each run on 6-8 random inputs; '
                          'distinct = distinct block texts; all non-trivial (every block is type-checked by the real passes, simulated and probed)')
